@@ -550,6 +550,20 @@ def ownership(ctx, world):
             ctx.ob("A9.pure", f"{label}(None, x) accumulates into freshly allocated zeros", True, loc_of(m2, n2))
         else:
             ctx.fail("A9.pure", f"{label}:none", f"autograd.core.{path}:none-zeros", loc_of(m2, n2), f"{label} with x_prev None does not start from self.zeros()/vs.zeros()", "accumulating into 'nothing' returns (or mutates) its argument instead of a fresh value")
+        # the accumulated value is what the accumulator RETURNS (an accumulator may rebuild instead of writing in
+        # place - containers do): every non-raising path returns the result of the (_)mut_add call
+        if r2 is not None:
+            okr = True
+            for c_ in cases(r2):
+                lf = c_.leaf
+                if lf.op == "raise":
+                    continue
+                if not (lf.op == "call" and lf.fn.op == "attr" and lf.fn.name in ("mut_add", "_mut_add")):
+                    okr = False
+            if okr:
+                ctx.ob("A9.pure", f"{label} returns the accumulator's result", True, loc_of(m2, n2))
+            else:
+                ctx.fail("A9.pure", f"{label}:result", f"autograd.core.{path}:returns-result", loc_of(m2, n2), f"{label} does not return the value its accumulation call produced (an accumulator is free to build a new value: container cotangents do)", "a tuple/list/dict of scalars receiving two dense contributions and then an indexed one: the indexed contribution is built into a new container that is thrown away")
 
 
 # ----------------------------------------------------------------------------------------- purity of VSpace ops / in-place sites
